@@ -116,6 +116,23 @@ def length_sweep(rng, quick):
     return out
 
 
+def layout_execs(rng):
+    """Heap layouts: a short target whose buffer is directly followed by the buffer of a LONGER argument String (so the argument's
+    address lies within 'argument length' bytes behind the target's), and arguments that are views into the second half of the
+    target's own characters when the target has to move to grow"""
+    out = []
+    rs = lambda n: bytes(rng.choice(b"abcdefghijklmnopqrstuvwxyz") for _ in range(n))
+    for (a, b) in ((40, 300), (100, 1000), (24, 200), (3000, 3999), (8, 64), (1, 40), (0, 33)):
+        for op in ("concato", "appendo"):
+            out.append(["reset", "new 1 %s" % hx(rs(a)), "new 2 %s" % hx(rs(b)), "%s 1 2" % op, "cmp 1 2", "%s 2 1" % op, "%s 1 2" % op])
+    for L0 in (20, 64, 200, 1000):
+        for frac in (0.5, 0.6, 0.75, 0.95):
+            n = int(L0 * frac) + 1
+            # (a second String behind the first: growing the first means moving it)
+            out.append(["reset", "new 1 %s" % hx(rs(L0)), "new 2 %s" % hx(rs(50)), "concatin 1 %d" % n, "concatin 1 %d" % (n + 3), "assignin 1 %d" % (L0 // 2 + 2)])
+    return out
+
+
 def main(tier, replay=None):
     chk = vlib.Check(PID, tier, "model_checking")
     rng, wd = chk.rng, chk.wd
@@ -147,6 +164,7 @@ def main(tier, replay=None):
     camp.run([], [random_exec(rng, rng.choice([60, 150]), 1000 if not quick else 300, rng.choice([b"ab", b"ab", b"a\x80\xffz", full]))
                   for _ in range(n)], "random")
     camp.run([], length_sweep(rng, quick), "lengths", sample=False)
+    camp.run([], layout_execs(rng), "layouts", sample=False)
     chk.cov["rule"] = ("an execution = a history of String calls on the real library; every event carries the bytes, len, hash and buffer "
                        "capacity of every live String, judged by TLC against the abstract byte sequence; distinct = different history")
     chk.cov["exhaustive"] = covered == total
